@@ -482,6 +482,53 @@ def c09_cli_stage(ctx):
         except Exception:
             import traceback
             st.r.setdefault('harness_error', 'cli %s: %s' % (name, traceback.format_exc()[-1500:]))
+    # an update whose directory fsync fails is reported as an error; the operator repeats the command. The repeated command
+    # is acknowledged, so by then the directory entry of the first attempt (or a new one) must have been made durable.
+    name = 'update-retry-after-failed-directory-fsync'
+    if not getattr(ctx, 'only_case', None) or ctx.only_case == name:
+        try:
+            d = os.path.join(st.work, name)
+            shutil.rmtree(d, ignore_errors=True)
+            base = os.path.join(d, 'store')
+            os.makedirs(base)
+            cfg = os.path.join(d, 'store.yml')
+            with open(cfg, 'w') as f:
+                f.write('basedir: "%s"\ndefault: 1\nparams:\n  - id: 1\n    argon2id:\n      time: 1\n      memory: 8\n      threads: 1\n      length: 32\n' % base)
+            for c in (['init', 'root', 'Root-Quartz-Zebra-1'], ['add', 'alice', 'Alice-Quartz-Zebra-1']):
+                subprocess.run([agent, '--store', cfg] + c, env=st.env(), stdout=subprocess.PIPE, stderr=subprocess.STDOUT)
+            upd = [agent, '--store', cfg, 'update', 'alice', 'Alice-Quartz-Zebra-2']
+            # -P restricts tracing (and with it the injection) to system calls on the base directory itself: only its fsync fails
+            p1 = subprocess.run(['strace', '-f', '-o', os.path.join(d, 'first.log'), '-P', base, '-e', 'trace=fsync,fdatasync', '-e', 'inject=fsync,fdatasync:error=EIO'] + upd,
+                                env=st.env(), stdout=subprocess.PIPE, stderr=subprocess.STDOUT)
+            first_failed_sync = 'EIO' in open(os.path.join(d, 'first.log'), errors='replace').read()
+            st.count('cli_commands')
+            st.count('cli_exit:%s:first:%s' % (name, p1.returncode))
+            if not first_failed_sync:
+                st.inconcl('the directory fsync of the first update was not hit by the injection')
+            elif p1.returncode != 0:
+                logp = os.path.join(d, 'trace-retry')
+                rc, out = sc.strace_run(upd, logp, env=st.env(), strsize=256)
+                st.count('cli_commands')
+                st.count('cli_exit:%s:retry:%s' % (name, rc))
+                st.case(name + '/retry', True)
+                st.count('cli_entry_obligations')
+                if rc == 0:
+                    synced = False
+                    for fn in sorted(os.listdir(d)):
+                        if fn.startswith('trace-retry.'):
+                            for sx in sc.parse_thread_log(os.path.join(d, fn))[0]:
+                                if sx.name in ('fsync', 'fdatasync') and sx.ret == 0:
+                                    fds = sc.fds_of(sx.args)
+                                    if fds and os.path.normpath(fds[0][1]) == base:
+                                        synced = True
+                    if not synced:
+                        st.violate('c09:command-line:retry-after-failed-directory-fsync-acknowledged-without-fsync',
+                                   'the first `update alice` failed at the fsync of the base directory (new record in place, not durable); the repeated command exited 0 without any fsync of the base directory: after a power loss the old password is back although the change was acknowledged',
+                                   name, {'first_exit': p1.returncode, 'retry_exit': rc})
+            shutil.rmtree(d, ignore_errors=True)
+        except Exception:
+            import traceback
+            st.r.setdefault('harness_error', 'cli %s: %s' % (name, traceback.format_exc()[-1500:]))
     return st.done()
 
 
